@@ -35,7 +35,7 @@ CLAIMED['C06'] = ('TLC-generated single-fault documents (GenFault.tla: 14 fault 
                   '(exception class) for every printed form against that model',
                   'trusted: TLC, pv/surface.py, exception class names; messages are ignored',
                   'DESIGN.md 2.3, 5 (C06)')
-CLAIMED['C12'] = ('Session!ParseCall(route, bom, doc, opts): 8 entry points + 13 refused source types x BOM x options on TLC-generated '
+CLAIMED['C12'] = ('Session!ParseCall(route, bom, doc, opts): 8 entry points + 17 refused source types x BOM x options on TLC-generated '
                   'documents; outcome and renderer classes compared by TLC',
                   'the specification makes the outcome a function of the document and of the options the route accepts (RouteIndependent); '
                   'every route x BOM x option cell is executed for each generated document and validated by TLC',
